@@ -6,27 +6,27 @@ declare -A PLAN=(
  [C02-1]="C02:td_check_order_read_require_read"
  [C02-2]="C02:td_make_consistent_once"
  [C04-1]="C11:c11_query_pairs_pre12,c11_query_pairs_pre13 C04:bu_queue_require_now_then_pop_chain"
- [C04-2]="C04:bu_queue_require_now_then_pop_chain,bu_queue_require_now_then_pop_pairs"
+ [C04-2]="C04:bu_queue_require_now_then_pop_pairs,bu_queue_require_now_then_pop_chain"
  [C05-1]="C05:ctx_write_with_unrelated_reader_aborts"
- [C05-2]="C11:c11_query_pairs_pre12,c11_query_pairs_pre13 C05:ctx_read_without_path_to_writer_aborts"
+ [C05-2]="C05:ctx_hidden_read_after_positive_query_aborts C11:c11_query_pairs_pre12"
  [C06-1]="C06:ctx_write_to_resource_of_other_writer_aborts"
- [C06-2]="C06:ctx_write_to_resource_of_other_writer_aborts"
- [C08-1]="C08:ctx_reset_then_rerecord_is_exact"
+ [C06-2]="C06:ctx_write_to_resource_of_other_writer_aborts,session_overlapping_write_aborts"
+ [C08-1]="C08:ctx_reset_then_rerecord_is_exact,session_td_dynamic_dependencies"
  [C08-2]="C08:ctx_reset_then_rerecord_is_exact"
- [C09-1]="C09:td_check_order_read_read_read C02:td_check_order_read_require_read"
- [C09-2]="C04:bu_schedule_affected_by_resource_iff_inconsistent"
+ [C09-1]="C09:td_check_order_read_require_read"
+ [C09-2]="C09:session_td_coarse_checkers C04:bu_schedule_affected_by_resource_iff_inconsistent"
  [C10-1]="C10:c10_step_pre1,c10_step_pre7,c10_step_pre11"
  [C10-2]="C10:c10_step_pre10,c10_step_pre13,c10_step_pre7"
  [C11-1]="C11:c11_query_pairs_pre12,c11_query_pairs_pre13"
- [C11-2]="C11:c11_step3_pre1_g1_pair,c11_step3_pre6_g1_pair"
+ [C11-2]="C11:c11_step3_pre6_g1_pair,c11_step3_pre3_g1_pair"
  [C12-1]="C12:"
  [C12-2]="C12:"
  [C15-1]="C15:c15_store_resource_nodes"
- [C15-2]="C15:c15_keyobj_pairs,c15_store_task_nodes"
- [C17-1]="C17:c17_tracking_start_end_pairs C18:td_check_order_require_read_require"
+ [C15-2]="C15:c15_keyobj_pairs,c15_taskobj_pairs"
+ [C17-1]="C17:td_check_emits_end_event_also_on_error"
  [C17-2]="C17:c17_tracking_start_end_pairs"
- [C18-1]="C18:bu_schedule_affected_by_resource_iff_inconsistent"
- [C18-2]="C18:td_check_order_require_read_require"
+ [C18-1]="C18:bu_schedule_error_reported_when_task_already_scheduled"
+ [C18-2]="C18:td_check_order_require_read_require,session_checker_error_then_recovery"
 )
 SEEDS=${@:-$(ls seeded | grep -E '^C[0-9]+-[0-9]+$')}
 for s in $SEEDS; do
